@@ -382,6 +382,18 @@ func recordParse(args []string) error {
 	for _, name := range alphabetNames() {
 		emitParse(w, name+" = \"v\" ; a, "+name)
 	}
+	// well-formed multi-byte runes whose low byte is a character of the grammar (U+0141 = 'A' + 0x100, U+2009 thin space ...),
+	// after a name, after white space, after placeholder digits, between tokens
+	for _, hi := range []rune{0x100, 0x200, 0x2000, 0x4e00, 0x10300} {
+		for _, lo := range "azAZ09_ \t\n\r=&|^();,\"$" {
+			ru := string(hi + lo)
+			emitParse(w, "a"+ru+" = \"x\"")
+			emitParse(w, "a = \"x\" "+ru)
+			emitParse(w, "a = \"x\" "+ru+"& b = $1")
+			emitParse(w, "a = $1"+ru)
+			emitParse(w, "a = \"x\" ; b"+ru)
+		}
+	}
 	// very deep nesting: termination / no panic only (beyond what TLC's recursion validates)
 	for _, d := range []int{1000, 5000, 20000} {
 		s := strings.Repeat("(", d) + "a = \"x\"" + strings.Repeat(")", d)
@@ -521,9 +533,11 @@ func recordRoundTrip(args []string) error {
 		nb := vx.BytesOf(name)
 		roundTrip(w, &vx.QTree{Op: "eq", Col: nb, Val: vx.BytesOf("v")}, [][]int{vx.BytesOf("a"), nb, vx.BytesOf("b")})
 	}
-	// every byte value inside a string literal
+	// every byte value inside a string literal, alone and doubled
 	for b := 0; b < 256; b++ {
 		roundTrip(w, &vx.QTree{Op: "eq", Col: vx.BytesOf("a"), Val: []int{'x', b, 'y'}}, [][]int{})
+		roundTrip(w, &vx.QTree{Op: "eq", Col: vx.BytesOf("a"), Val: []int{'x', b, b, 'y'}}, [][]int{})
+		roundTrip(w, &vx.QTree{Op: "eq", Col: vx.BytesOf("a"), Val: []int{b, b}}, [][]int{})
 	}
 	return w.Close()
 }
